@@ -375,6 +375,7 @@ async fn run_t<TC: ModelCfg>(spec: Spec) -> Out {
             rt_component!(out, sp, pb::SingleAppendOnlyProof, akd::SingleAppendOnlyProof, "SingleAppendOnlyProof");
         }
         items.push(Item::Audit { hashes: (s..=e).map(|i| model.hashes[i as usize]).collect(), bytes: wire::enc_audit(&p) });
+        audit_blobs::<TC>(&mut out, &mut rng, &p, (s..=e).map(|i| model.hashes[i as usize]).collect(), spec.faults_per_proof).await;
     }
     let _ = root;
     // ---- (b) faults ----
@@ -477,6 +478,175 @@ async fn run_t<TC: ModelCfg>(spec: Spec) -> Out {
     out
 }
 
+// ---------- audit blobs (akd::local_auditing): name <-> string, data <-> proof ----------
+
+fn hex_digest(s: &str) -> Option<[u8; 32]> {
+    if s.len() != 64 || !s.is_ascii() {
+        return None;
+    }
+    let mut out = [0u8; 32];
+    for i in 0..32 {
+        out[i] = u8::from_str_radix(&s[2 * i..2 * i + 2], 16).ok()?;
+    }
+    Some(out)
+}
+
+async fn audit_blobs<TC: ModelCfg>(out: &mut Out, rng: &mut Rng, p: &akd::AppendOnlyProof, hashes: Vec<[u8; 32]>, faults: u32) {
+    use akd::local_auditing::{generate_audit_blobs, AuditBlob, AuditBlobName};
+    // mismatched lengths are refused, not indexed into
+    for bad in [vec![], hashes[..hashes.len() - 1].to_vec(), [hashes.clone(), vec![[7u8; 32]]].concat()] {
+        out.checks += 1;
+        match catch_unwind(AssertUnwindSafe(|| generate_audit_blobs(bad.clone(), p.clone()))) {
+            Err(_) => out.v("c19_panic", format!("generate_audit_blobs with {} hashes for {} epochs panicked: {}", bad.len(), p.epochs.len(), crate::sched::take_last_panic().unwrap_or_default())),
+            Ok(Ok(_)) => out.v("c19_audit_blob_mismatched_lengths_accepted", format!("{} hashes for {} epochs", bad.len(), p.epochs.len())),
+            Ok(Err(_)) => out.p("blob_mismatched_lengths_rejected"),
+        }
+    }
+    let blobs = match generate_audit_blobs(hashes.clone(), p.clone()) {
+        Ok(b) => b,
+        Err(e) => {
+            out.v("c19_audit_blob_roundtrip", format!("generate_audit_blobs refused an honest proof: {e:?}"));
+            return;
+        }
+    };
+    if blobs.len() != p.proofs.len() {
+        out.v("c19_audit_blob_roundtrip", format!("{} blobs for {} single proofs", blobs.len(), p.proofs.len()));
+        return;
+    }
+    for (i, blob) in blobs.iter().enumerate() {
+        out.checks += 1;
+        let want = (p.epochs[i], hashes[i], hashes[i + 1]);
+        // (a) name -> string -> name, data -> proof; both must give back exactly what went in
+        let name = blob.name.to_string();
+        match AuditBlobName::try_from(name.as_str()) {
+            Ok(n) if (n.epoch, n.previous_hash, n.current_hash) == want && n == blob.name => {}
+            Ok(n) => out.v("c19_audit_blob_roundtrip", format!("blob name {name} parses to epoch {} / {} / {}, the blob was made for epoch {} / {} / {}", n.epoch, hex::encode(n.previous_hash), hex::encode(n.current_hash), want.0, hex::encode(want.1), hex::encode(want.2))),
+            Err(e) => out.v("c19_audit_blob_roundtrip", format!("blob name {name} does not parse: {e:?}")),
+        }
+        match blob.decode() {
+            Ok((ep, ph, ch, sp)) => {
+                if (ep, ph, ch) != want || sp != p.proofs[i] {
+                    out.v("c19_audit_blob_roundtrip", format!("blob of epoch {} decodes to different contents (epoch {ep}, proof equal: {})", want.0, sp == p.proofs[i]));
+                } else if let Err(e) = akd::auditor::verify_consecutive_append_only::<TC>(&sp, ph, ch, ep + 1).await {
+                    out.v("c19_verification_differs_after_roundtrip", format!("decoded audit blob of epoch {ep} does not verify: {e}"));
+                } else {
+                    out.p("audit_blob_roundtrip_verified");
+                }
+            }
+            Err(e) => out.v("c19_audit_blob_roundtrip", format!("blob of epoch {} does not decode: {e:?}", want.0)),
+        }
+        // (b) faulty names: cut, one character replaced / inserted / removed, parts dropped or added
+        let mut names: Vec<String> = vec![];
+        for _ in 0..faults / 4 {
+            let mut c: Vec<char> = name.chars().collect();
+            let at = rng.below(c.len() as u64) as usize;
+            match rng.below(6) {
+                0 => c.truncate(at),
+                1 => c[at] = *rng.pick(&['/', 'g', 'G', 'f', '0', '+', '-', ' ', 'x', '\u{e9}']),
+                2 => c.insert(at, *rng.pick(&['/', '0', 'a', '+', ' ', '\u{e9}'])),
+                3 => {
+                    c.remove(at);
+                }
+                4 => {
+                    let parts: Vec<String> = name.split('/').map(|x| x.to_string()).collect();
+                    let mut q = parts.clone();
+                    match rng.below(4) {
+                        0 => {
+                            q.remove(rng.below(3) as usize);
+                        }
+                        1 => q.swap(0, 1),
+                        2 => q.push(parts[2].clone()),
+                        _ => q[0] = rng.pick(&["18446744073709551616", "+1", "-1", "0x10", "", "01", "1e3"]).to_string(),
+                    }
+                    c = q.join("/").chars().collect();
+                }
+                _ => {
+                    // a digest of the wrong size: one byte more or less, in hex
+                    let mut parts: Vec<String> = name.split('/').map(|x| x.to_string()).collect();
+                    let k = 1 + rng.below(2) as usize;
+                    if rng.chance(1, 2) {
+                        parts[k].truncate(62);
+                    } else {
+                        parts[k].push_str("00");
+                    }
+                    c = parts.join("/").chars().collect();
+                }
+            }
+            names.push(c.into_iter().collect());
+        }
+        for bad in names {
+            if bad == name {
+                continue;
+            }
+            out.checks += 1;
+            match catch_unwind(AssertUnwindSafe(|| AuditBlobName::try_from(bad.as_str()))) {
+                Err(_) => out.v("c19_panic", format!("parsing the blob name {bad:?} panicked: {}", crate::sched::take_last_panic().unwrap_or_default())),
+                Ok(Err(_)) => out.p("blob_name_fault_rejected"),
+                Ok(Ok(n)) => {
+                    // an accepted name must say what the string says: exactly three parts are judged
+                    let parts: Vec<&str> = bad.split('/').collect();
+                    if parts.len() == 3 {
+                        let faithful = parts[0].parse::<u64>().ok() == Some(n.epoch) && hex_digest(parts[1]) == Some(n.previous_hash) && hex_digest(parts[2]) == Some(n.current_hash);
+                        if faithful {
+                            out.p("blob_name_fault_accepted_faithfully");
+                        } else {
+                            out.v("c19_audit_blob_name_misparsed", format!("{bad:?} is accepted as epoch {} / {} / {}", n.epoch, hex::encode(n.previous_hash), hex::encode(n.current_hash)));
+                        }
+                    } else {
+                        out.p("blob_name_with_extra_parts_accepted_(not_judged)");
+                    }
+                }
+            }
+        }
+        // (c) faulty data
+        let mut datas: Vec<(String, Vec<u8>)> = vec![];
+        for _ in 0..faults / 4 {
+            let l = rng.below(blob.data.len().max(1) as u64) as usize;
+            datas.push((format!("truncate@{l}"), blob.data[..l].to_vec()));
+            if !blob.data.is_empty() {
+                let mut b = blob.data.clone();
+                let at = rng.below(b.len() as u64) as usize;
+                b[at] ^= 1 << rng.below(8);
+                datas.push((format!("bitflip@{at}"), b));
+            }
+        }
+        if let Some(t) = parse_tree(&blob.data, 0) {
+            let n_nodes = count_nodes(&t);
+            for _ in 0..faults / 2 {
+                if n_nodes == 0 {
+                    break;
+                }
+                let which = rng.below(n_nodes as u64) as usize;
+                let e = *rng.pick(&[Edit::Delete, Edit::Duplicate, Edit::ShrinkBytes, Edit::GrowBytes, Edit::EmptyBytes, Edit::Grow33, Edit::VarintHuge, Edit::VarintZero, Edit::VarintPlusOne]);
+                if let Some(b) = apply_edit(&t, which, e) {
+                    if b != blob.data {
+                        datas.push((format!("{e:?}@field{which}"), b));
+                    }
+                }
+            }
+        }
+        for (what, data) in datas {
+            out.checks += 1;
+            let kind = what.split('@').next().unwrap_or("").to_string();
+            let fb = AuditBlob { name: blob.name, data };
+            match catch_unwind(AssertUnwindSafe(|| fb.decode())) {
+                Err(_) => out.v("c19_panic", format!("{what}: decoding a corrupted audit blob panicked: {}", crate::sched::take_last_panic().unwrap_or_default())),
+                Ok(Err(_)) => out.p(&format!("blob_{kind}_rejected")),
+                Ok(Ok((ep, ph, ch, sp))) => {
+                    if (ep, ph, ch) != want {
+                        out.v("c19_audit_blob_roundtrip", format!("{what}: the blob's name components changed in decode"));
+                    }
+                    // whatever decodes either fails verification or verifies the same statement (the only result an audit has)
+                    match akd::auditor::verify_consecutive_append_only::<TC>(&sp, ph, ch, ep.saturating_add(1)).await {
+                        Ok(()) => out.p(&format!("blob_{kind}_still_verifies_to_same_result")),
+                        Err(_) => out.p(&format!("blob_{kind}_rejected")),
+                    }
+                }
+            }
+        }
+    }
+}
+
 fn item_name(i: &Item) -> &'static str {
     match i {
         Item::Lookup { .. } => "LookupProof",
@@ -550,11 +720,12 @@ impl Arm for C19 {
         out
     }
     fn rule(&self) -> String {
-        "one case = one seeded publish history (<= 6 labels, <= 8 epochs) on the real Directory; lookup and complete-history proofs of up to 2 labels and one seeded audit range are taken. (a) each proof and each component inside it (NodeLabel, AzksElement, SiblingProof, MembershipProof, NonMembershipProof, UpdateProof, SingleAppendOnlyProof) goes value -> message -> bytes -> message -> value and must be identical; verifying the decoded proof must give the same result as the original. (b) the encoded proof crosses a faulty transport: truncation at every length (<= 400 bytes) or seeded lengths, seeded bit flips, random payloads, and edits of the protobuf field tree at seeded positions (field deleted, duplicated, bytes field shortened / lengthened / emptied / resized to 33 bytes i.e. over-long labels and wrong-size digests, varint set to u64::MAX / 0 / +1). Oracle: decoding + verification never panics (a panic inside akd is the violation, a panic in the harness is a harness error); the result is an error, or a proof that verifies to exactly the original's result. non-trivial = at least two proofs were attacked; distinct = distinct (fault seed, proof count)".into()
+        "one case = one seeded publish history (<= 6 labels, <= 8 epochs) on the real Directory; lookup and complete-history proofs of up to 2 labels and one seeded audit range are taken. (a) each proof and each component inside it (NodeLabel, AzksElement, SiblingProof, MembershipProof, NonMembershipProof, UpdateProof, SingleAppendOnlyProof) goes value -> message -> bytes -> message -> value and must be identical; verifying the decoded proof must give the same result as the original. (b) the encoded proof crosses a faulty transport: truncation at every length (<= 400 bytes) or seeded lengths, seeded bit flips, random payloads, and edits of the protobuf field tree at seeded positions (field deleted, duplicated, bytes field shortened / lengthened / emptied / resized to 33 bytes i.e. over-long labels and wrong-size digests, varint set to u64::MAX / 0 / +1). Oracle: decoding + verification never panics (a panic inside akd is the violation, a panic in the harness is a harness error); the result is an error, or a proof that verifies to exactly the original's result. (c) akd::local_auditing: the audit proof is cut into blobs; every blob name goes to its string and back, every blob's data decodes to the same single proof which still verifies; mismatched hash counts are refused; seeded faulty names (cut, character replaced / inserted / removed, parts dropped / swapped / added, epochs such as 2^64, +1, 0x10, digests one byte short or long) never panic and, when a three-part name is accepted, it is accepted as exactly the epoch and the two 32-byte digests its text spells; faulty blob data never panics. non-trivial = at least two proofs were attacked; distinct = distinct (fault seed, proof count)".into()
     }
     fn assumptions(&self) -> Vec<String> {
         vec![
             "panics inside tasks spawned by audit verification surface as join errors (an Err), which is accepted as 'rejected cleanly'".into(),
+            "akd::local_auditing is exercised on the audit proof of every case: blob names to strings and back, blob data to proofs and back, faulty names and data".into(),
             "examples/src/wasm_client is not run; the same decode + verify path is exercised through akd_core::proto and akd::client".into(),
         ]
     }
